@@ -3,7 +3,8 @@
 # anything that is not exit 0 (anti-flakiness run on the unchanged tree).
 TIER=$1; shift
 cd "$(dirname "$0")/.." || exit 2
-IDS=$(ls gvp/checks | grep '^C[0-9]*\.py$' | sed 's/\.py//')
+# SOAK_IDS="C01 C02" restricts the run to those checks
+IDS=${SOAK_IDS:-$(ls gvp/checks | grep '^C[0-9]*\.py$' | sed 's/\.py//')}
 for SEED in "$@"; do
   for ID in $IDS; do
     s=$(date +%s)
